@@ -7,7 +7,8 @@ Three layers, all on every run:
    inverse bijections, every emitted two-qubit gate is on an edge, un-routing the emitted list
    gives back the executed blocks, the executed blocks are a dependency-respecting
    linearisation (trace-equivalent to the input) and  run(out) = P_layout . run(in)  for every
-   permutation-equivariant interpretation of gates; swap_guard_<Router> statements;
+   permutation-equivariant interpretation of gates; swap_guard_<Router> statements (Sabre
+   candidates, Sabre shortest-path fallback, ShortestPaths._add_swaps);
    StarConnectivityRouter as a deterministic refinement; verified reorder checker for blocks.
 2. correspondence: CircuitMap.update / undo / execute_block are wrapped at run time; the
    decision trace of the real router is replayed through the Coq step function (vm_compute)
@@ -672,6 +673,13 @@ def defect_cases(rng):
     out.append(("stale", mk_spec(star, [0, 1, 2, 3, 4], gs, ["StarConnectivityRouter", {}])))
     for r in R3:
         out.append(("stale", mk_spec(line3, [0, 1, 2], [["U", [0, 2], {"m0": m0, "m": m1}]], r)))
+    # regression: a measurement on three qubits after a two-qubit gate that needs a SWAP (star router)
+    gs = [["CZ", [1, 2], {}], ["M", [0, 1, 2], {"register_name": "r"}]]
+    out.append(("meas3", mk_spec(star, [0, 1, 2, 3, 4], gs, ["StarConnectivityRouter", {}])))
+    # regression: a qubit that has to move more than one step (ShortestPaths._add_swaps)
+    line6 = nx.path_graph(6)
+    for mp_seed in range(4):
+        out.append(("far", mk_spec(line6, list(range(6)), [["CZ", [0, 5], {}], ["CNOT", [5, 1], {}]], ["ShortestPaths", {"seed": mp_seed}])))
     # measurement in a non-Z basis (basis rotation gates are in the queue)
     for basis in ("X", "Y"):
         gs = [["CZ", [0, 2], {}], ["M", [0], {"basis": basis}]]
